@@ -8,6 +8,8 @@ regenerated from the code on every run (tie G, `Generated/Dtypes.lean`).
 * `Natural`, `Shape`, `Ty`                       — `Constant`/`Unknown`, `Shape`, `Type`/`Tensor`/`Sequence`/`Optional`
 * `Natural.le`, `Shape.le`, `subtype`            — `__le__` per class, `Shape.__le__`, `_subtype` (with the `==` shortcut and the `Type()` wildcard)
 * `bElem`, `bZip`, `broadcast`                   — `_broadcast_elem`, the `zip`, `Shape.broadcast` (with the swap and the left padding)
+* `SDim`, `SimpleShape`, `fromSimple`/`toSimple`, `ShapeArg`, `broadcastArg`, `canBroadcast`, `maybeRank`
+                                                 — the simple format, `Union[Shape, SimpleShape]` arguments (`None` = unknown rank), `can_broadcast`, `maybe_rank`
 * `DimP`, `TypeProto`, `toOnnx`, `fromOnnx`      — the fragment of `onnx.TypeProto` spox reads and writes
 * `npElem`, `npZip`, `npBroadcast`               — numpy's broadcasting rule on concrete shapes (specification side)
 * `RtVal`, `conforms`, `compat`                  — runtime values, "type describes value", the statement's compatibility (specification side)
@@ -107,6 +109,60 @@ def broadcast (a b : Shape) : Option Shape :=
   | some a, some b =>
       let (a, b) := if a.length > b.length then (b, a) else (a, b)
       (bZip (List.replicate (b.length - a.length) (.const 1) ++ a) b).map some
+
+/-! ### The simple format (`SimpleShape = Optional[Tuple[Union[str, int, None], ...]]`) and arguments
+    declared `Union[Shape, SimpleShape]`
+
+In the simple format `None` **is** the spelling of the unknown rank (`Tensor(dtype).shape`), the
+element `None` and the empty string both spell the anonymous dimension. -/
+
+/-- One element of a simple shape: `int | str | None`. -/
+inductive SDim
+  | int (n : Nat)
+  | str (s : String)
+  | none
+deriving DecidableEq, Repr, Inhabited
+
+/-- `SimpleShape`; `none` = Python `None` = unknown rank. -/
+abbrev SimpleShape := Option (List SDim)
+
+/-- `Natural.from_simple`. -/
+def Natural.fromSimple : SDim → Natural
+  | .int n => .const n
+  | .str s => .unk s
+  | .none => .unk ""
+
+/-- `Constant.to_simple` / `Unknown.to_simple` (`None if not self.label else self.label`). -/
+def Natural.toSimple : Natural → SDim
+  | .const n => .int n
+  | .unk l => if l = "" then .none else .str l
+
+/-- `Shape.from_simple`. -/
+def Shape.fromSimple (s : SimpleShape) : Shape := s.map (·.map Natural.fromSimple)
+
+/-- `Shape.to_simple`. -/
+def Shape.toSimple (s : Shape) : SimpleShape := s.map (·.map Natural.toSimple)
+
+/-- An argument declared `Union[Shape, SimpleShape]`: a `Shape` object, or anything else (taken to be
+    a simple shape — a tuple/list of elements, or `None`). -/
+inductive ShapeArg
+  | shape (s : Shape)
+  | simple (s : SimpleShape)
+deriving DecidableEq, Repr, Inhabited
+
+/-- `if not isinstance(other, Shape): other = Shape.from_simple(other)`. -/
+def ShapeArg.resolve : ShapeArg → Shape
+  | .shape s => s
+  | .simple s => Shape.fromSimple s
+
+/-- `Shape.broadcast(self, other)` as called (operand in either spelling). Outer `none` = `ShapeError`. -/
+def broadcastArg (self : Shape) (other : ShapeArg) : Option Shape := broadcast self other.resolve
+
+/-- `Shape.maybe_rank`; `Shape.rank` is the same with `ShapeError` for `none`. -/
+def Shape.maybeRank (s : Shape) : Option Nat := s.map List.length
+
+/-- `Shape.can_broadcast`: `broadcast` did not raise `ShapeError`. -/
+def canBroadcast (self : Shape) (other : ShapeArg) : Bool := (broadcastArg self other).isSome
 
 /-! ### numpy's rule (specification side; compared with `np.broadcast_shapes` on every run) -/
 
